@@ -501,3 +501,62 @@ def if_paths(stmts: List[ast.stmt], facts=()) -> List[Tuple[List[Tuple[ast.AST, 
 
     seq(list(stmts), list(facts))
     return out
+
+
+# ---------------------------------------------------------------------------
+# paths with ordered statements
+# ---------------------------------------------------------------------------
+class Path:
+    """One syntactic path through a block of if-trees: the atomic facts known
+    to hold, the simple statements executed in order (loops / try / with are
+    opaque and appear as one statement), and how the path leaves the block."""
+    __slots__ = ("facts", "stmts", "exit", "exit_stmt")
+
+    def __init__(self, facts, stmts, exit, exit_stmt):
+        self.facts = facts
+        self.stmts = stmts
+        self.exit = exit
+        self.exit_stmt = exit_stmt
+
+    def fact_texts(self):
+        return {(norm(t), p) for t, p in self.facts}
+
+    def has_fact(self, text: str, pol: bool = True) -> bool:
+        return (text, pol) in self.fact_texts()
+
+    def compare(self, left: str, op: str, right: str) -> bool:
+        return compare_holds(self.facts, left, op, right)
+
+    def index(self, pred) -> int:
+        for i, s in enumerate(self.stmts):
+            if pred(s):
+                return i
+        return -1
+
+
+def stmt_paths(stmts: List[ast.stmt], max_paths: int = 4096) -> List[Path]:
+    out: List[Path] = []
+
+    def seq(stmts, facts, done):
+        if len(out) > max_paths:
+            return
+        if not stmts:
+            out.append(Path(list(facts), list(done), "fall", None))
+            return
+        st, rest = stmts[0], stmts[1:]
+        if isinstance(st, ast.Return):
+            out.append(Path(list(facts), list(done) + [st], "return", st))
+        elif isinstance(st, ast.Continue):
+            out.append(Path(list(facts), list(done), "continue", st))
+        elif isinstance(st, ast.Break):
+            out.append(Path(list(facts), list(done), "break", st))
+        elif isinstance(st, ast.Raise):
+            out.append(Path(list(facts), list(done) + [st], "raise", st))
+        elif isinstance(st, ast.If):
+            for pol, body in ((True, st.body), (False, st.orelse)):
+                seq(list(body) + list(rest), list(facts) + conjuncts(st.test, pol), done)
+        else:
+            seq(rest, facts, done + [st])
+
+    seq(list(stmts), [], [])
+    return out
